@@ -95,6 +95,23 @@ def unwind {σ : Type} (I : Impl σ) (fin opErr : Fin) (cc : Bool) : σ → List
       (s, .running (.recv :: ss)) :: (I.close s opErr, .done) :: (if cc then unwind I fin opErr cc s ss else [])
   | s, .wait :: ss => [(s, .running (.wait :: ss)), (I.close s opErr, .done)]
 
+/-- How far the handler may have got ON ITS OWN by the time the abort strikes (the client's last op before
+the abort is done, the handler runs on concurrently): any number of its local ops, up to its next blocking
+call — a `send` (latch flushed or not yet), a `recv` (passed with io.EOF after a half-close), a `wait` —
+or its return.  These ops ran on a LIVE context (a SendHeader / flush among them did send the header). -/
+def advance {σ : Type} (I : Impl σ) (fin : Fin) (cc : Bool) : σ → List SOp → List (σ × Srv)
+  | s, [] => [(s, .running []), (I.close s fin, .done)]
+  | s, .setHeader md :: ss => (s, .running (.setHeader md :: ss)) :: advance I fin cc (I.setHeader s md).1 ss
+  | s, .sendHeader md :: ss => (s, .running (.sendHeader md :: ss)) :: advance I fin cc (I.sendHeader s md).1 ss
+  | s, .setTrailer md :: ss => (s, .running (.setTrailer md :: ss)) :: advance I fin cc (I.setTrailer s md) ss
+  | s, .send m :: ss => [(s, .running (.send m :: ss)), (I.preSend s, .running (.send m :: ss))]
+  | s, .recv :: ss => (s, .running (.recv :: ss)) :: (if cc then advance I fin cc s ss else [])
+  | s, .wait :: ss => [(s, .running (.wait :: ss))]
+
+def advanced {σ : Type} (I : Impl σ) (fin : Fin) (cc : Bool) (s : σ) : Srv → List (σ × Srv)
+  | .running ops => advance I fin cc s ops
+  | srv => [(s, srv)]
+
 def futures {σ : Type} (I : Impl σ) (fin opErr : Fin) (cc : Bool) (s : σ) : Srv → List (σ × Srv)
   | .running ops => unwind I fin opErr cc s ops
   | srv => [(s, srv)]
@@ -146,7 +163,8 @@ def asyncRuns {σ : Type} (I : Impl σ) (fin : Fin) (opErr : Abort → Fin) (reu
     match stateAt I fin reuse s0 false (.running ss) pre with
     | none => [(go I fin reuse s0 false (.running ss) pre).client]
     | some (s, cc, srv) =>
-      (after I fin (opErr a) a reuse cc false (I.abort s a) srv post).map fun evs =>
+      ((advanced I fin cc s srv).flatMap fun p =>
+          after I fin (opErr a) a reuse cc false (I.abort p.1 a) p.2 post).map fun evs =>
         (go I fin reuse s0 false (.running ss) pre).client ++ .did a :: evs
 
 def Wrap.asyncRuns (c : Cfg) (shape : Shape) (ss : List SOp) (fin : Fin) (cs : List COp) (reuse : Bool) :
